@@ -261,47 +261,6 @@ def enhex(s):
 
 
 ALL_CREATE_OPS = ("head", "rule", "ruleq", "headt", "rulet")      # ..t = through create_throw
-LEADNUM = re.compile(r"[+-]?[0-9]+")
-
-
-def lenient_normalise(pfx, shape, name):
-    """the name with every numeric token cut after its leading integer (what `istream >> int` reads); None if the
-    name has no such token.  Only used to separate the known 'trailing garbage' class from everything else."""
-    low = [p.strip(WS).lower() for p in name.split(":")]
-    out = []
-    i = 0
-    if len(low) >= 2:
-        hh = low[0].split("*", 1)
-        if hh[0].strip(WS) == "refine":
-            if len(hh) == 2:
-                m = LEADNUM.match(hh[1].strip(WS))
-                if not m:
-                    return None
-                k = int(m.group(0))
-                out.append("refine*%d" % (k if k >= 0 else k + 2 ** 64))
-            else:
-                out.append("refine")
-            i = 1
-    rest = low[i:]
-    if len(rest) < 2:
-        return ":".join(out + rest) if (out and rest) else None
-    if rest[0] == "auto-degree":
-        if len(rest) != 2:
-            return None
-        m = LEADNUM.match(rest[1])
-        if not m:
-            return None
-        d = int(m.group(0))
-        return ":".join(out + ["auto-degree", str(d if d >= 0 else d + 2 ** 64)])
-    if pfx and rest[0] in ("tensor", "scalar") and len(rest) >= 3:
-        out.append(rest[0])
-        rest = rest[1:]
-    m = LEADNUM.match(":".join(rest[1:]).strip(WS))
-    if not m:
-        return None
-    return ":".join(out + [rest[0], m.group(0)])
-
-
 # ---------------------------------------------------------------------------------------------
 # oracle
 # ---------------------------------------------------------------------------------------------
@@ -322,16 +281,6 @@ def oracle(case, out):
             o = out.split()
             rname, npts = o[1], int(o[2])
             if spec is None:
-                # the only tolerated (known, open) class: a numeric token followed by garbage is read as its leading
-                # integer -- and then the answer must at least be the rule of the name so normalised
-                norm = lenient_normalise(pfx, shape, name)
-                nspec = spec_parse(pfx, shape, norm) if norm is not None else None
-                if nspec is not None and nspec["kind"] == "base":
-                    if rname != refined_name(nspec["base"], nspec["k"]):
-                        return "wrong-rule: %r answered with rule %s, not even the rule of %r" % (name, rname, norm)
-                    return "lenient: %r is not a rule name for %s but is answered with rule %s" % (name, shape, rname)
-                if nspec is not None:
-                    return "lenient: %r is not a rule name for %s but is answered with rule %s" % (name, shape, rname)
                 extra = ""
                 if op in ("rule", "ruleq", "rulet"):
                     try:
@@ -767,9 +716,26 @@ def gen_range_cases(factories, pfx):
 
 CORPUS = {
     "names0": [
+        # F-C14-4 (fixed 5a16de52a / c82e1d7f9): a numeric token must be a numeral and nothing else -> refused
         "head 0 h2 " + enhex("gauss-legendre:3:junk"),
         "head 0 h2 " + enhex("gauss-legendre:3x"),
         "head 0 s3 " + enhex("auto-degree:-1"),
+        "head 0 s1 " + enhex(" \tnewton-cotes-closed  :2x  "),
+        "head 0 h2 " + enhex("gauss-legendre:12 1"),
+        "head 0 s1 " + enhex("refine*2x:barycentre"),
+        "head 0 s1 " + enhex("refine*2*2:barycentre"),
+        "head 0 s1 " + enhex("refine*-1:barycentre"),
+        "head 0 s2 " + enhex("dunavant:5.0"),
+        "head 0 s2 " + enhex("dunavant:0x5"),
+        "head 0 s2 " + enhex("dunavant:+5"),
+        "head 0 s2 " + enhex("dunavant: 05 "),
+        "head 0 s2 " + enhex("dunavant:+ 5"),
+        "head 0 s2 " + enhex("dunavant:5+"),
+        "head 0 s2 " + enhex("auto-degree:+4"),
+        "head 0 s2 " + enhex("auto-degree:4 "),
+        "head 0 s2 " + enhex("auto-degree:4a"),
+        "head 0 h1 " + enhex("gauss-legendre:99999999999999999999"),
+        "head 0 h1 " + enhex("auto-degree:18446744073709551616"),
         "head 0 s2 " + enhex("auto-degree:4294967298"),
         "head 0 h2 " + enhex(":5"),                      # F-C14-5 (fixed aaa7ffc35): empty second-to-last part
         "head 0 s2 " + enhex("x::3"),
@@ -779,6 +745,11 @@ CORPUS = {
         "head 0 h3 " + enhex("tensor:gauss-legendre:2"),
         "head 0 s1 " + enhex("midpoint"),
         "head 0 s2 " + enhex("refine*0:dunavant:7"),
+    ],
+    "names1": [
+        "head 1 h2 " + enhex("tensor\t:gauss-legendre  :12 1 "),
+        "head 1 h2 " + enhex("tensor\t:gauss-legendre  :12 "),
+        "head 1 s1 " + enhex("scalar:gauss-legendre:3:junk"),
     ],
     "tables": [
         "rule 0 s2 " + enhex("dunavant:7"),
@@ -856,7 +827,7 @@ def main(argv):
         streams = [
             vlib.Stream("tables", CORPUS["tables"] + gen_table_cases(0, 1000 if quick else 8000), [bins["p0"]], drv, **common),
             vlib.Stream("names0", CORPUS["names0"] + gen_name_cases(rng, 0, n_names), [bins["p0"]], drv, **common),
-            vlib.Stream("names1", gen_name_cases(rng, 1, n_names // 2) + gen_table_cases(1, 30), [bins["p1"]], drv, **common),
+            vlib.Stream("names1", CORPUS["names1"] + gen_name_cases(rng, 1, n_names // 2) + gen_table_cases(1, 30), [bins["p1"]], drv, **common),
             vlib.Stream("exactq", gen_exactq_cases(rng, 120 if quick else 2500, 700 if quick else 3000), [bins["p0"]], drv, **common),
             vlib.Stream("transform", gen_transform_cases(rng, 400 if quick else 15000), [bins["p0"]], drv, **common),
             vlib.Stream("ranges", gen_range_cases(factories, 0), [bins["p0"]], drv, **common),
